@@ -180,7 +180,13 @@ func (h *AnnouncePingHandler) Handle(w *mgr.WorkerCtx, f frame.Frame, hdr *PingH
 		rte.Expires = msg.Expires
 	}
 	// Add to table.
-	added, err := h.r.table.AddRoute(rte)
+	// The link may have been closed while the frame was waiting to be handled.
+	var added bool
+	if !h.r.instance.Peering().WithRegisteredLink(recvLink, func() {
+		added, err = h.r.table.AddRoute(rte)
+	}) {
+		return errors.New("announce ping was received on a link that is gone")
+	}
 	switch {
 	case err != nil:
 		w.Warn(
